@@ -188,15 +188,17 @@ func (r *Record) LessByName(other *Record) bool {
 // LessByCoordinate returns true if the receiver sorts by coordinate before other
 // according to the SAM specification.
 func (r *Record) LessByCoordinate(other *Record) bool {
-	rRefName := r.Ref.Name()
-	oRefName := other.Ref.Name()
+	// The major sort key is the reference, with order defined by
+	// the order of the references in the header, not by their names.
+	rRefID := r.RefID()
+	oRefID := other.RefID()
 	switch {
-	case oRefName == "*":
+	case oRefID < 0:
 		return true
-	case rRefName == "*":
+	case rRefID < 0:
 		return false
 	}
-	return (rRefName < oRefName) || (rRefName == oRefName && r.Pos < other.Pos)
+	return (rRefID < oRefID) || (rRefID == oRefID && r.Pos < other.Pos)
 }
 
 // String returns a string representation of the Record.
